@@ -469,6 +469,8 @@ def interp_stmt(st, env, P):
         return [("SMk", "Instrumented")]
     if st == "let inner = ManuallyDrop::new(self)" and env.cls == "Instrument":
         return []
+    if st == "self.instrument(Span::current())" and env.cls == "Instrument":
+        return [("SInvoke", "Span::current"), ("SInvoke", S + "Instrument::instrument")]
     if st in ("WithDispatch { inner: self, dispatch: collector.into(), }",):
         return [("SMk", "WithDispatch")]
     if st == "WithDispatch { inner: self, dispatch: dispatch::get_default(|default| default.clone()), }":
@@ -772,6 +774,7 @@ def analyse(repo):
             row(S + (key or cls + "::" + fn), [retarget(e, S) for e in evs])
 
         m2("Instrument", "instrument", r"\npub trait Instrument: Sized\s*\{", Env("Instrument"))
+        m2("Instrument", "in_current_span", r"\npub trait Instrument: Sized\s*\{", Env("Instrument"))
         m2("WithCollector", "with_collector", r"\npub trait WithCollector: Sized\s*\{", Env("WithCollector"))
         m2("WithCollector", "with_current_collector", r"\npub trait WithCollector: Sized\s*\{", Env("WithCollector"))
         m2("Instrumented", "poll", r"\nimpl<T: %s> %s for Instrumented<T>\s*\{" % (re.escape(fut_path), re.escape(fut_path)),
